@@ -533,6 +533,15 @@ def SplitOutsideQuotes(text, separator):
     return parts
 
 
+def UnquoteName(text):
+    # the NAME field of an element header id:"name":Type -- a quoted name is the text between the quotes as it is
+    # (operator<, operator(), a name with a colon); an unquoted field (NULL) is cleaned as before
+    name = text.strip()
+    if len(name) >= 2 and name[0] == '"' and name[-1] == '"':
+        return name[1:-1].strip()
+    return mass_replace(text).strip()
+
+
 def Get_ValuesFromOutside(outside, verbose=False):
     '''
     During recursion of 'ParseBLOB_Recursive', a outside and a inside ({}) (another Blob) is built up.
@@ -544,9 +553,9 @@ def Get_ValuesFromOutside(outside, verbose=False):
     res = {}
     if outside.find(";") == -1 and outside.find(":") != -1:
         # its a key:name:type
-        all = outside.split(":")
+        all = SplitOutsideQuotes(outside, ":")
         res["id"] = mass_replace(all[0]).strip()
-        res["name"] = mass_replace(all[1]).strip()
+        res["name"] = UnquoteName(all[1])
         res["type"] = mass_replace(all[2]).strip()
     else:
         all = SplitOutsideQuotes(outside, ";")
